@@ -437,6 +437,19 @@ func registerVerif(p *Program) {
 			n = 0
 		}
 		e.maxPreempt = n
+		e.schedChoiceCap, e.schedChoices = 0, 0
+		return nil
+	})
+	// signals are not delivered in explored runs
+	p.reg("os/signal.Notify", func(e *Exec, g *G, a []Value) Value { return nil })
+	p.reg("os/signal.Stop", func(e *Exec, g *G, a []Value) Value { return nil })
+	p.reg("verif:verifSchedFirst", func(e *Exec, g *G, a []Value) Value {
+		// explore which goroutine runs next at the first k points where the running one blocks;
+		// afterwards (and with k == 0) the deterministic order is used; no preemptions
+		k := int(a[0].(*Term).SVal())
+		e.schedFork = k > 0
+		e.maxPreempt = 0
+		e.schedChoiceCap, e.schedChoices = k, 0
 		return nil
 	})
 	p.reg("verif:verifRaceDetect", func(e *Exec, g *G, a []Value) Value {
